@@ -31,6 +31,12 @@ class RobotsTxtPool(object):
         '''Load the robot.txt file.'''
         key = self.url_info_key(url_info)
         parser = robotexclusionrulesparser.RobotExclusionRulesParser()
+
+        if isinstance(text, bytes):
+            # The parser would read bytes as Latin-1, but it compares them
+            # with URL paths that it percent-decodes as UTF-8.
+            text = text.decode('utf-8', errors='replace')
+
         parser.parse(text)
 
         self._parsers[key] = parser
